@@ -144,3 +144,34 @@ def right_inverse(cfg):
     if ok_shape:
         prod = [[sum(G[i][l] * R[l][j] for l in range(n)) % 2 for j in range(k)] for i in range(k)]
         yield "G_R_is_identity", prod == [[1 if i == j else 0 for j in range(k)] for i in range(k)], "G.R = I over GF(2)"
+
+
+# ---------------------------------------------------------------------------------------- helper contract on ALL small full-rank matrices
+def _shape_cfgs(tier):
+    lim = 12 if tier == "quick" else 16
+    return [codes.Cfg("allmat", k, n) for k in range(1, 5) for n in range(k, 7) if k * n <= lim]
+
+
+@obligation("C04.right_inverse_all_small_matrices", function=F + "linear_block_code.py:compute_right_pseudo_inverse", configs=_shape_cfgs, kind="ground", engine="ground")
+def right_inverse_all_small(cfg):
+    """compute_right_pseudo_inverse(G): G.R = I over GF(2) for EVERY full-rank binary k x n matrix of the given shape (exhaustive)"""
+    from kaira.models.fec.encoders.linear_block_code import compute_right_pseudo_inverse
+
+    _, k, n = cfg
+    bad = None
+    count = 0
+    for bits in range(1 << (k * n)):
+        rows = [[(bits >> (i * n + j)) & 1 for j in range(n)] for i in range(k)]
+        if Gd.rank(Gd.rows_to_masks(rows)) != k:
+            continue
+        R = compute_right_pseudo_inverse(torch.tensor(rows, dtype=torch.float32))
+        count += 1
+        Rl = [[int(round(float(v))) for v in r] for r in R.tolist()]
+        ok = len(Rl) == n and all(len(r) == k for r in Rl)
+        if ok:
+            prod = [[sum(rows[i][l] * Rl[l][j] for l in range(n)) % 2 for j in range(k)] for i in range(k)]
+            ok = prod == [[1 if i == j else 0 for j in range(k)] for i in range(k)]
+        if not ok:
+            bad = {"G": rows, "R": Rl}
+            break
+    yield "G_R_is_identity", bad is None, f"all {count} full-rank binary {k}x{n} matrices" if bad is None else f"fails for G = {bad['G']}: R = {bad['R']}"
